@@ -3,6 +3,7 @@ import TeaTasting.Driver.Stubs
 import TeaTasting.Gen.Aggr
 import TeaTasting.Gen.Mean
 import TeaTasting.Gen.Proportion
+import TeaTasting.Model.Solve
 
 /-! Driver for the GENERATED model (`Gen/*.lean`) at `ℚ`:  `lake env lean --run DriverGen.lean`. -/
 
@@ -54,6 +55,21 @@ def handler (cmd : String) : P String := do
     let coef := RatioOfMeans.covariate_coef c a
     let cm := Aggr.mean a c.numer_covariate / Aggr.mean a c.denom_covariate
     pure (showRats [RatioOfMeans.metric_mean c a coef cm, RatioOfMeans.metric_var c a coef])
+  | "solve_brackets" =>
+    -- model brackets for solving the effect size (v, n, power) and n_obs (v, d, power)
+    let fam ← nat
+    let c ← cfg
+    let v ← rat
+    let n ← rat
+    let d ← rat
+    let pw ← rat
+    let P := Stubs.family fam
+    let fe := fun x => pw - RatioOfMeans.power_from_stats P c v n x
+    let fnn := fun x => pw - RatioOfMeans.power_from_stats P c v x d
+    let eb := Solve.findBoundary fe (RatioOfMeans.solve_effect_init P c v n)
+    let nb := Solve.findBoundary fnn (RatioOfMeans.solve_n_bracket c).2
+    let sh := fun (o : Option ℚ) => match o with | some x => showRat x | none => "none"
+    pure (s!"{sh (eb.map (min 0))} {sh (eb.map (max 0))} {showRat (RatioOfMeans.solve_n_bracket c).1} {sh nb}")
   | "sr" =>
     let fam ← nat
     let c ← srcfg
